@@ -1,5 +1,5 @@
 (* PropC04.v — property C04: exact class lookup, unambiguous method lookup. *)
-From PG Require Import Base Mapping Spec Mapper MapperProofs.
+From PG Require Import Base Mapping Spec Mapper CacheWriter CacheReader MapperProofs WriterInv CacheProofs.
 
 Theorem C04_class_mapper : forall ix rs c, wf_class_names rs = true ->
   m_remap_class (build ix rs) c = Sclass rs c.
@@ -8,6 +8,14 @@ Proof. exact mapper_class. Qed.
 Theorem C04_method_mapper : forall ix rs c m, wf_class_names rs = true ->
   m_remap_method (build ix rs) c m = Smethod rs c m.
 Proof. exact mapper_method. Qed.
+
+Theorem C04_class_cache : forall rs c, dom32 rs = true -> sizes_ok rs = true ->
+  c_remap_class (C rs) c = Sclass rs c.
+Proof. intros rs c Hd Hs. apply cache_class; assumption. Qed.
+
+Theorem C04_method_cache : forall rs c m, dom32 rs = true -> sizes_ok rs = true ->
+  c_remap_method (C rs) c m = Smethod rs c m.
+Proof. intros rs c m Hd Hs. apply cache_method; assumption. Qed.
 
 (* whenever method lookup answers, every line-based frame carries that method name *)
 Theorem C04_consistent : forall rs c m k o line file,
